@@ -1,4 +1,6 @@
 """C13 -- used-qubit analysis is exact; overlapping parallel branches are rejected."""
+import re
+
 import numpy as np
 
 from .. import sx, gen, lib, meaning as M, monitors, minimise, gateset, refexec
@@ -129,11 +131,13 @@ def judge(case):
         fails.append(("emulator-raised:" + o[1], {"error": o[2], "overlap": ov}))
         return "ok", fails, info
     if o[0] == "jaqal":
-        is_overlap_msg = "Parallel branches" in o[2]
+        is_overlap_msg = bool(re.search(r"parallel|branch|overlap|disjoint|same qubit|more than once", o[2], re.I))
         if ov is None and is_overlap_msg:
             fails.append(("rejects-disjoint-program", {"error": o[2]}))
         elif ov is not None and not is_overlap_msg:
             info["other_rejection"] = o[2]
+        elif ov is None:
+            info["disjoint_rejected_other"] = o[2]
         return "ok", fails, info
     if ov is not None:
         fails.append(("accepts-overlapping-branches", {"block": ov[0], "qubits": ov[1]}))
@@ -217,6 +221,8 @@ def process(ctx, case, seen):
     rec.count("permutations-compared", info.get("perms", 0))
     if "overlap" in info:
         rec.count("overlap:ref-yes" if info["overlap"] else "overlap:ref-no")
+    if "disjoint_rejected_other" in info:
+        rec.count("disjoint-but-rejected-for:" + info["disjoint_rejected_other"][:60])
     if "other_rejection" in info:
         rec.count("overlapping-but-rejected-for:" + info["other_rejection"][:60])
     for s in sx.walk(prog):
